@@ -8,7 +8,8 @@ META = {
     "technique": "Coq proof (termination and coverage of the environment traversal) + reified-graph correspondence + edit-menu oracle on real loads",
     "level_text": "Theorems (Coq, all graphs): fingerprint_terminates (the traversal done by recursionPickler/envPickler under the "
                   "encoder's memo terminates on every function graph, recursion and mutual recursion included) and "
-                  "fingerprint_covers_reachable (the code of every reachable function is in the fingerprint). Tie: the harness "
+                  "fingerprint_covers_reachable (the code of every reachable function is in the fingerprint), fingerprint_independent_of_identities "
+                  "(renaming function identities by any injective map leaves the fingerprint unchanged). Tie: the harness "
                   "reifies the live function graph of each program's target and the Coq model must reproduce the expansion tree seen "
                   "in the implementation's decoded fingerprint. Oracles on the implementation, each load in its own process: "
                   "terminates without error/crash/hang for recursion, mutual recursion, closures, defaults, nested defs, lambdas, "
